@@ -255,3 +255,15 @@ PROPS["C11"] = {
     "level_text": "Machine-checked Lean 4 theorems, for every schedule: decideAndCheck_replies (reply_exactly_once / reply_truthful for an iteration of run: the request that ended the wait gets exactly one reply, Started iff the policy allowed the check and Throttled iff it refused; each request during the check exactly one AlreadyRunning; each request taken in the reboot wait exactly one AlreadyRunning; no other replies), rebootLoop_replies / rebootWait_replies / waitForReboot_replies / afterCheck_replies (by induction over the reboot-wait script), addsT_startUpdateCheck (a check by itself replies to nobody), outerWait_ctl_first (C12: a request wakes the waiting machine with no timer firing), upgradeOpts_spec and rebootLoop_ondemand_ctl + rebootLoop_ondemand_sticky + rebootLoop_scheduled_ctl (an on-demand request — during the check or the wait — makes this and every later reboot question on-demand and reboots iff the policy agrees; a scheduled one asks nothing). Tied to state_machine.rs by the per-unit differential run with requests injected at every kind of blocking point, and by the ctl stream for channel closure.",
     "level_note": "Trusted: Lean kernel; the hand-written state-machine model; harness (manual executor, handle clones) and diff. Partial: the gone / dropped-handles clauses are tested on the implementation, not proved.",
 }
+
+PROPS["C13"] = {
+    "lean_modules": ["Omaha.Props.C13"],
+    "streams": [{"name": "gen", "file": "gen", "args": ["gen"]}] +
+               sm_stream([r"E ", r"I (install|reboot)", [r"H ", []], [r"Z ", []]]),
+    "rule": "stream gen: the real async_generator::generate with a task interpreting a program over {yield x, yield_all xs (incl. empty), self-wake, wait for external event k, drop the Yield handle, return r}, polled by hand with a flag waker under a schedule of polls and external events; all programs up to length 4 (quick) / 5 (thorough) over a 7-operation alphabet under an eager and a late-firing schedule, plus random programs of length <= 12 under random schedules with spurious polls, early / late / repeated events; compared: every poll result, whether the root waker was woken during each step, is_terminated() after each poll; non-trivial = the program yields at least one item; distinct = (program, schedule). Stream sm: " + SM_RULE + "; the harness installer reports progress one value at a time and with 2-3 reports in flight at once; the event stream is logged on consumer receipt and the machine is polled only when woken (so trace equality is back-pressure and wake-up discipline); projection: every event in order, install / reboot calls, the position of every request, how the unit ended",
+    "trusted_extra": ["modelled, not verified: futures-channel mpsc with capacity 0 and one sender (queue of at most one item, sender parked from push to pop, receiver AtomicWaker, closure on sender drop), futures-util Send / SendAll / Fuse, as transcribed in Omaha/Gen.lean — validated against the real crates by the gen stream on every run",
+                      "the state-machine side (events in order, progress before outcome, no stall under a wake-only executor) is the sm stream of the other properties"] + SM_TRUSTED,
+    "assumptions": ["a program cannot yield after dropping its handle (not expressible in Rust); the model skips such operations and the generator never produces them"],
+    "level_text": "Machine-checked Lean 4 theorems about Omaha.Gen, for every program and every schedule (by the invariant GInv over all reachable states: init_inv, runOps_post, pollTask_inv, pollNext_inv, fire_inv): stream_is_fifo (the items received are a prefix of the program's yields, in order: none lost, duplicated or reordered; drive_conserve: delivered ++ queued ++ still-to-push is always the yield sequence), completes_once + allOk_complete_all_items (Complete is returned at most once, only after every item, with the program's return value; before it only items or Pending, after it None forever), queue_at_most_one, no_progress_while_untaken (backpressure: while an emitted item is untaken, polling the task changes nothing — code after an emission runs only in a later poll than the one that delivered it), unwoken_pending_is_external_wait + fire_wakes + spurious_poll_pending (no_lost_wakeup: a Pending without a wake is a registered wait on an unfired external event whose firing wakes the task; every other Pending has already woken the root waker; spurious polls are harmless), runOps_settled / pollTask_settled; and runInstall_trace (SM model: every progress value, in order, directly after the install call and before its outcome is acted on). Tied to async_generator.rs by the gen stream (poll-by-poll, incl. wake flags) and to state_machine.rs by the sm stream under a wake-only executor.",
+    "level_note": "Trusted: Lean kernel; the hand-written model of the channel and of poll_next; harness and diff. Partial: liveness under fairness (strict_executor_live) is not stated as a theorem — its safety core (no_lost_wakeup) is; into_yielded / into_complete / into_try_stream are thin filters over the same stream and are not modelled.",
+}
